@@ -140,12 +140,70 @@ def job_end_to_end(ses, proto):
     ses.absorb(ex)
 
 
+def job_histories(ses, maxlen, shard=0, nshards=1):
+    """every call sequence over {set_claim(k_i, v_i), remove_claim(k_i), build_payload_from_claims} with SYMBOLIC keys and values of at most `maxlen`
+    calls followed by a build, started from the real GenericBuilder::new(): every payload produced along the way must equal the claims as they
+    stand at that moment.  Stated on observable results only, so it also covers state the per-operation frame conditions do not know about
+    (an added cache field, say)."""
+    import itertools
+    w = world(); ex = upper_executor(w)
+    fnew = [g for g in w.fns if g.file == GB and g.method == 'new' and '{closure' not in g.name]
+    if len(fnew) != 1: raise Unsupported('GenericBuilder::new: %d bodies' % len(fnew))
+    fset = w.fn(GB, 'set_claim'); frem = w.fn(GB, 'remove_claim'); fbuild = w.fn(GB, 'build_payload_from_claims')
+    seqs = []
+    for n in range(0, maxlen + 1):
+        for s_ in itertools.product(('set', 'remove', 'build'), repeat=n): seqs.append(list(s_) + ['build'])
+    ex.stats['bounds']['generic builder histories'] = '%d sequences of at most %d calls + build, keys and values symbolic' % (len(seqs), maxlen)
+    seqs = [q for i, q in enumerate(seqs) if i % nshards == shard]
+    starts = [(s_, r) for s_, r in ex.run(fnew[0], [], new_state([])) if not isinstance(r, Panic)]
+    if len(starts) != 1: ses.undecided.append('GenericBuilder::new has %d paths' % len(starts)); return
+    kq = String('k_any')
+    for seq in seqs:
+        s0 = starts[0][0].fork(); cell = s0.new_cell(starts[0][1])
+        P = K(S, BoolVal(False)); V = Const('v_unset', ArraySort(S, JV))
+        frontier = [(s0, [])]
+        for i, op in enumerate(seq):
+            k = String('hk%d' % i); v = Const('hv%d' % i, JV); nxt = []
+            if op == 'set': P, V = If(k == StringVal(''), P, Store(P, k, BoolVal(True))), If(k == StringVal(''), V, Store(V, k, v))
+            elif op == 'remove': P = Store(P, k, BoolVal(False))
+            for s1, obs in frontier:
+                s1.pc.append(Length(k) < 2**30)
+                if op == 'set': outs = ex.run(fset, [('ref', cell, ()), ('opaque_claim', k, v)], s1, subst={'T': 'SymClaim'})
+                elif op == 'remove': outs = ex.run(frem, [('ref', cell, ()), k], s1)
+                else: outs = ex.run(fbuild, [('ref', cell, ())], s1)
+                for s2, r in outs:
+                    if isinstance(r, Panic):
+                        if upper_obligation(ses, 'generic history %s: no panic at call %d (%s)' % (seq, i, r.msg[:40]), list(s2.pc)): ses.violation('generic builder call sequence %s panics' % seq, {}, {'kind': 'c14'})
+                        continue
+                    nxt.append((s2, obs + [(i, r, P, V)] if op == 'build' else obs))
+            frontier = nxt
+        if not frontier: ses.undecided.append('generic history %s: no path' % seq)
+        for s2, obs in frontier:
+            for (bi, r, Pm, Vm) in obs:
+                if not is_ok(r):
+                    if upper_obligation(ses, 'generic history %s: the build at call %d does not fail' % (seq, bi), list(s2.pc)): ses.violation('generic builder sequence %s: build fails' % seq, {}, {'kind': 'c14'})
+                    continue
+                po = c13.payload_obj(r[3][0])
+                if po is None: ses.undecided.append('generic history %s: payload not an object term' % seq); continue
+                want = And(Select(po[0], kq) == Select(Pm, kq), Implies(Select(Pm, kq), Select(po[1], kq) == Select(Vm, kq)))
+                rec = upper_obligation(ses, 'generic history %s: the payload of the build at call %d has exactly the claims set and not removed before it, with the last value set' % (seq, bi),
+                                       list(s2.pc) + c13.mapdefs_lemmas(s2, [kq]) + [Not(want)], values=[kq])
+                if rec: ses.violation('generic builder sequence %s: the payload of build #%d differs from the claims set/removed before it' % (seq, bi), fmt_model(['key'], rec), {'kind': 'c14'})
+    ses.samples.append({'generic histories': len(seqs), 'example': seqs[min(5, len(seqs) - 1)]})
+    ses.absorb(ex)
+
+
 def run(ses):
     jobs = [(job_set_remove, ()), (job_payload, ()), (job_wrap_value_step, ())] + [(job_typed_claim, (t,)) for t in CLAIMS] + [(job_end_to_end, (p,)) for p in PROTOCOLS]
+    # the end-to-end jobs use the core summary "parse(build(payload)) = payload"; the summary is discharged here as well (the C01/C02 core round trips),
+    # so a core change that garbles the payload text is seen by this check too
+    jobs += [(c01.job_roundtrip, (p, f, a)) for p in PROTOCOLS for f, a in c01.variants(p, 'quick')]
+    nsh = 4 if ses.tier == 'quick' else 8
+    jobs += [(job_histories, (3 if ses.tier == 'quick' else 4, i, nsh)) for i in range(nsh)]
     run_jobs(ses, jobs)
     ses.trusted_base = TRUSTED
     ses.assumptions = ['claims are set through GenericBuilder::set_claim / remove_claim; values are arbitrary JSON values; keys arbitrary strings (empty keys are ignored, as the source documents)']
-    ses.bounds.update({'history length': 'unbounded (per-operation frame conditions on an arbitrary claims map)', 'JSON nesting': 'unbounded (wrap_value by induction)'})
+    ses.bounds.update({'history length': 'unbounded (per-operation frame conditions on an arbitrary claims map of the declared fields); layout-independent histories from GenericBuilder::new(): 3 calls + build (quick), 4 (thorough)', 'JSON nesting': 'unbounded (wrap_value by induction)'})
 
 confirm = c01.confirm
 replay = c01.replay
